@@ -78,13 +78,9 @@ Section Coupling.
       vget Rops (s_sum (fst (abf_run Rops c' h')) b) k = vget Rops (s_sum (fst (abf_run Rops c h)) b) k.
   Proof.
     intros Hwf H.
-    assert (A1 : apply_const true h).
-    { unfold apply_const. clear - H. induction H as [|i i' h h' Hi Hh IH]; constructor; [apply Hi | exact IH]. }
-    assert (A2 : apply_const true h').
-    { unfold apply_const. clear - H. induction H as [|i i' h h' Hi Hh IH]; constructor; [apply Hi | exact IH]. }
     assert (Hwf' : wf_cfg c') by exact Hwf.
-    destruct (abf_state_is_sample_sum_const c h b true Hwf A1) as [C1 S1].
-    destruct (abf_state_is_sample_sum_const c' h' b true Hwf' A2) as [C2 S2].
+    destruct (abf_state_is_sample_sum c h b Hwf) as [C1 S1].
+    destruct (abf_state_is_sample_sum c' h' b Hwf') as [C2 S2].
     rewrite (attributed_same h h' H) in C2, S2. split; [congruence|].
     intros k Hk. rewrite (S1 k Hk). apply (S2 k Hk).
   Qed.
@@ -96,18 +92,14 @@ Section Coupling.
     = vget Rops (o_fabf (snd (abf_step Rops c (fst (abf_run Rops c h)) i))) k.
   Proof.
     intros Hwf H Hk Hmf Hcap.
-    assert (A : forall l l', Forall2 same_but_other l l' -> apply_const true l /\ apply_const true l').
-    { intros l l' HF. unfold apply_const. induction HF as [|a b l l' Hab Hl [IH1 IH2]]; split; constructor;
-        try assumption; apply Hab. }
-    destruct (A _ _ H) as [A1 A2].
-    rewrite (applied_force_is_smoothed_negative_mean_const c h i k true Hwf A1 Hk Hmf Hcap).
-    rewrite (applied_force_is_smoothed_negative_mean_const c' h' i' k true Hwf A2 Hk Hmf Hcap).
+    rewrite (applied_force_is_smoothed_negative_mean c h i k Hwf Hk Hmf Hcap).
+    rewrite (applied_force_is_smoothed_negative_mean c' h' i' k Hwf Hk Hmf Hcap).
     rewrite (attributed_same (h ++ [i]) (h' ++ [i']) H).
-    assert (Hx : i_x i' = i_x i).
+    assert (Hx : i_x i' = i_x i /\ i_apply i' = i_apply i).
     { clear - H. apply Forall2_app_inv_l in H. destruct H as (l1 & l2 & _ & H2 & E).
       inversion H2 as [|a b la lb Hab Hl]; subst. inversion Hl; subst.
-      apply app_inj_tail in E. destruct E as [_ <-]. apply Hab. }
-    unfold bins. cbn [c_nd c_lower c_width c' set_other]. rewrite Hx. reflexivity.
+      apply app_inj_tail in E. destruct E as [_ <-]. destruct Hab as (X & _ & _ & _ & A1 & A2). split; congruence. }
+    destruct Hx as [Hx Ha]. unfold bins. cbn [c_nd c_lower c_width c' set_other]. rewrite Hx, Ha. reflexivity.
   Qed.
 End Coupling.
 
@@ -132,3 +124,41 @@ Proof.
   induction Ha as [|x l Hx Hl IH]; cbn [map]; constructor; [|exact IH].
   unfold same_but_other, with_other. cbn. repeat split; try reflexivity; exact Hx.
 Qed.
+
+(* ---- the statements that coq/C08/Properties_C08.v exports: every C04 name is used in this file only ---------- *)
+Definition abf_coupling_stmt : Prop :=
+  forall (c : @abf_cfg R) (o' : list bool),
+    c_same_step c = false ->
+    (forall k, (k < c_nd c)%nat -> bget (c_subtract c) k = true) ->
+    forall (h h' : list (@abf_in R)) (b : idx),
+      wf_cfg c -> Forall2 same_but_other h h' ->
+      s_cnt (fst (abf_run Rops (set_other c o') h')) b = s_cnt (fst (abf_run Rops c h)) b /\
+      forall k, (k < c_nd c)%nat ->
+        vget Rops (s_sum (fst (abf_run Rops (set_other c o') h')) b) k = vget Rops (s_sum (fst (abf_run Rops c h)) b) k.
+Lemma abf_coupling_holds : abf_coupling_stmt.
+Proof. exact abf_data_independent_of_other_biases. Qed.
+
+Definition abf_force_coupling_stmt : Prop :=
+  forall (c : @abf_cfg R) (o' : list bool),
+    c_same_step c = false ->
+    (forall k, (k < c_nd c)%nat -> bget (c_subtract c) k = true) ->
+    forall (h h' : list (@abf_in R)) (i i' : @abf_in R) (k : nat),
+      wf_cfg c -> Forall2 same_but_other (h ++ [i]) (h' ++ [i']) ->
+      (k < c_nd c)%nat -> (0 <= c_min c < c_full c)%Z -> (c_cap c = true -> 0 <= vget Rops (c_maxf c) k) ->
+      vget Rops (o_fabf (snd (abf_step Rops (set_other c o') (fst (abf_run Rops (set_other c o') h')) i'))) k
+      = vget Rops (o_fabf (snd (abf_step Rops c (fst (abf_run Rops c h)) i))) k.
+Lemma abf_force_coupling_holds : abf_force_coupling_stmt.
+Proof. exact abf_force_independent_of_other_biases. Qed.
+
+Definition abf_coupling_routed_stmt : Prop :=
+  forall (c : @abf_cfg R) (o' : list bool) (hr : list (@abf_in R * (@vec R * @vec R))) (b : idx),
+    c_same_step c = false ->
+    (forall k, (k < c_nd c)%nat -> bget (c_subtract c) k = true) ->
+    wf_cfg c -> Forall (fun x => i_apply (fst x) = true) hr ->
+    let h := map fst hr in
+    let h' := map (fun x => with_other (c_nd c) (fst x) (fst (snd x)) (snd (snd x))) hr in
+    s_cnt (fst (abf_run Rops (set_other c o') h')) b = s_cnt (fst (abf_run Rops c h)) b /\
+    forall k, (k < c_nd c)%nat ->
+      vget Rops (s_sum (fst (abf_run Rops (set_other c o') h')) b) k = vget Rops (s_sum (fst (abf_run Rops c h)) b) k.
+Lemma abf_coupling_routed_holds : abf_coupling_routed_stmt.
+Proof. exact abf_coupling_routed. Qed.
